@@ -23,7 +23,7 @@ RULE = (
     "functional groups) goes through the same oracle. Non-trivial: >= 3 distinct types and an explicit-file call in the history; distinct by SMILES."
 )
 ASSUMPTIONS = ["renumbering is applied to the generated molecule's RDKit object inside a deep copy of the MolGen (harness side)"]
-FLOORS = {"quick": {"corpus_molecules": 80, "molecules_typed": 150, "renumberings": 300, "explicit_file_calls": 100, "partial_probed": 100, "distinct_nontrivial": 40}, "thorough": {"molecules_typed": 4000}}
+FLOORS = {"quick": {"corpus_molecules": 80, "molecules_typed": 150, "renumberings": 300, "explicit_file_calls": 100, "partial_probed": 100, "distinct_nontrivial": 40}, "thorough": {"molecules_typed": 2000}}
 
 
 # small molecules and ions, one token each: every element the bundled rule file names (alkali / alkaline-earth / transition-metal ions, halides,
